@@ -3236,7 +3236,13 @@ impl Zeroconf {
                 // Simultaneous Probe Tiebreaking (RFC 6762 section 8.2)
                 if qtype == RRType::ANY && msg.num_authorities() > 0 {
                     if let Some(probe) = dns_registry.probing.get_mut(q_name) {
+                        let next_send = probe.next_send;
                         probe.tiebreaking(&msg, q_name);
+                        if probe.next_send != next_send {
+                            // We deferred to the other prober: wake up when the
+                            // one-second wait is over to probe again.
+                            self.timers.push(Reverse(probe.next_send));
+                        }
                     }
                 }
 
